@@ -171,10 +171,10 @@ theorem Inv_step (a : Agent) (e : Ev) (h : Inv a) : Inv (step a e).1 := by
             | false => rw [inboundData_reject a now l src len hacc]; exact h
             | true =>
               exact Inv_recvd a _ l src len (List.mem_of_find?_eq_some hl) (inboundData_accept a now l src len hacc).2 h
-    | read =>
+    | read cap =>
       cases hr : a.rx with
-      | nil => rw [step_read_empty a hc' hr]; exact h
-      | cons n rest => rw [step_read_some a n rest hc' hr]; exact h
+      | nil => rw [step_read_empty a cap hc' hr]; exact h
+      | cons n rest => rw [step_read_some a cap n rest hc' hr]; exact h
     | close =>
       obtain ⟨f, i, c⟩ := close_spec a
       exact ⟨i h.1, f.bnd h.2.1, fun hb => by rw [c] at hb; cases hb⟩
@@ -354,9 +354,10 @@ def sentBy (a : Agent) : Ev → Nat
   | .write now len s => if answersOk len (step a (.write now len s)).2 then len else 0
   | _ => 0
 
-/-- bytes returned by `Conn.Read` in this step (the head of the reader queue of an open agent) -/
+/-- bytes returned by `Conn.Read` in this step: the head of the reader queue of an open agent, cut to the
+caller's buffer of `cap` bytes (a short buffer returns `cap` bytes and `io.ErrShortBuffer`) -/
 def readBy (a : Agent) : Ev → Nat
-  | .read => if a.closed then 0 else a.rx.head?.getD 0
+  | .read cap => if a.closed then 0 else min (a.rx.head?.getD 0) cap
   | _ => 0
 
 /-- the independent statement of the inbound filter: the length queued by this event, if any -/
@@ -390,7 +391,7 @@ def pairDelta (a : Agent) (id : Nat) : Ev → Nat × Nat × Nat × Nat
 /-- the reader queue after this event: a `Read` on an open agent pops the head, an accepted inbound payload
 is appended -/
 def rxAfter (a : Agent) (e : Ev) : List Nat :=
-  (match e with | .read => if a.closed then a.rx else a.rx.drop 1 | _ => a.rx) ++
+  (match e with | .read _ => if a.closed then a.rx else a.rx.drop 1 | _ => a.rx) ++
   (match inboundAccepted a e with | some n => [n] | none => [])
 
 /-- the exact effect of one event on everything C07 counts -/
@@ -460,7 +461,7 @@ theorem StepSum_refused (a : Agent) (e : Ev) (len : Nat) (h : Refused a len (ste
   exact StepSum_unchanged a e h1 g1 h3 g2
 
 theorem rxAfter_nonrx (a : Agent) (e : Ev)
-    (h2 : (match e with | .read => if a.closed then a.rx else a.rx.drop 1 | _ => a.rx) = a.rx)
+    (h2 : (match e with | .read _ => if a.closed then a.rx else a.rx.drop 1 | _ => a.rx) = a.rx)
     (h1 : inboundAccepted a e = none) : rxAfter a e = a.rx := by
   unfold rxAfter; rw [h1, h2]; simp
 
@@ -597,19 +598,19 @@ theorem StepSum_inboundData (a : Agent) (now la src len : Nat) (stun : Bool) :
                 rw [hp] at this; cases this
                 rw [if_neg (fun hh => hlen hh.1), add4_zero]
 
-theorem StepSum_read (a : Agent) : StepSum a .read (step a .read).1 := by
-  have ed : ∀ id, pairDelta a id .read = (0, 0, 0, 0) := fun _ => rfl
+theorem StepSum_read (a : Agent) (cap : Nat) : StepSum a (.read cap) (step a (.read cap)).1 := by
+  have ed : ∀ id, pairDelta a id (.read cap) = (0, 0, 0, 0) := fun _ => rfl
   cases hc : a.closed with
   | true =>
-    rw [step_read_closed a hc]
+    rw [step_read_closed a cap hc]
     refine StepSum_unchanged a _ (rxAfter_nonrx a _ (by simp [hc]) rfl) rfl (by simp [readBy, hc]) ed
   | false =>
     cases hr : a.rx with
     | nil =>
-      rw [step_read_empty a hc hr]
+      rw [step_read_empty a cap hc hr]
       refine StepSum_unchanged a _ (rxAfter_nonrx a _ (by simp [hc, hr]) rfl) rfl (by simp [readBy, hc, hr]) ed
     | cons n rest =>
-      rw [step_read_some a n rest hc hr]
+      rw [step_read_some a cap n rest hc hr]
       refine ⟨?_, rfl, ?_, fun id p q hp hq => ?_⟩
       · simp [rxAfter, inboundAccepted, hc, hr]
       · simp [readBy, hc, hr]
@@ -623,7 +624,7 @@ theorem StepSum_step (a : Agent) (e : Ev) (h : Inv a) : StepSum a e (step a e).1
   | write now len s => exact StepSum_write a now len s h
   | writeToPair now id len s => exact StepSum_writeToPair a now id len s h
   | inboundData now la src len s => exact StepSum_inboundData a now la src len s
-  | read => exact StepSum_read a
+  | read cap => exact StepSum_read a cap
   | addLocal now c => exact StepSum_ctl a _ h rfl
   | addRemote now c => exact StepSum_ctl a _ h rfl
   | start now ctl ru rp => exact StepSum_ctl a _ h rfl
@@ -710,10 +711,21 @@ theorem pair_run (a : Agent) (es : List Ev) (id : Nat) (p q : Pair) (h : Inv a) 
 
 /-! ## FIFO -/
 
-/-- the length this event hands to the reader (`Read` on an open agent with a non-empty queue) -/
+/-- the queued datagram (its length) this event hands to the reader and consumes (`Read` on an open agent
+with a non-empty queue; the datagram is consumed whole whatever the caller's buffer size) -/
 def readOne (a : Agent) : Ev → List Nat
-  | .read => if a.closed then [] else a.rx.take 1
+  | .read _ => if a.closed then [] else a.rx.take 1
   | _ => []
+
+/-- the byte count this event's `Read` returns to its caller: the consumed datagram cut to `cap` -/
+def retOne (a : Agent) : Ev → List Nat
+  | .read cap => (readOne a (.read cap)).map fun n => min n cap
+  | _ => []
+
+/-- byte counts returned by `Read`, in order -/
+def retLog (a : Agent) : List Ev → List Nat
+  | [] => []
+  | e :: es => retOne a e ++ retLog (step a e).1 es
 
 /-- lengths returned by `Read`, in order -/
 def readLog (a : Agent) : List Ev → List Nat
@@ -726,7 +738,7 @@ def acceptLog (a : Agent) : List Ev → List Nat
   | e :: es => (match inboundAccepted a e with | some n => [n] | none => []) ++ acceptLog (step a e).1 es
 
 theorem readOne_rx (a : Agent) (e : Ev) :
-    readOne a e ++ (match e with | .read => if a.closed then a.rx else a.rx.drop 1 | _ => a.rx) = a.rx := by
+    readOne a e ++ (match e with | .read _ => if a.closed then a.rx else a.rx.drop 1 | _ => a.rx) = a.rx := by
   cases e <;> simp only [readOne, List.nil_append]
   split
   · rfl
@@ -747,11 +759,24 @@ theorem fifo_run (a : Agent) (es : List Ev) (h : Inv a) :
     simp only [acceptLog]
     rw [← List.append_assoc, ← List.append_assoc, readOne_rx, List.append_assoc]
 
-theorem readBy_eq_sum (a : Agent) (e : Ev) : readBy a e = (readOne a e).sum := by
-  cases e <;> simp only [readBy, readOne, List.sum_nil]
+theorem readBy_eq_sum (a : Agent) (e : Ev) : readBy a e = (retOne a e).sum := by
+  cases e <;> simp only [readBy, retOne, readOne, List.sum_nil]
   split
   · rfl
   · cases a.rx <;> simp
+
+/-- the bytes `Read` returned along a history are the sum of the per-call byte counts -/
+theorem readTally_eq_sum (a : Agent) (es : List Ev) : readTally a es = (retLog a es).sum := by
+  induction es generalizing a with
+  | nil => rfl
+  | cons e es ih => simp only [readTally, retLog, List.sum_append, readBy_eq_sum, ih]
+
+/-- every returned byte count is the consumed datagram cut to the caller's buffer: never more than either -/
+theorem retOne_le (a : Agent) (cap : Nat) : ∀ k ∈ retOne a (.read cap), k ≤ cap ∧ ∃ n ∈ readOne a (.read cap), k = min n cap := by
+  intro k hk
+  simp only [retOne, List.mem_map] at hk
+  obtain ⟨n, hn, rfl⟩ := hk
+  exact ⟨Nat.min_le_right _ _, n, hn, rfl⟩
 
 /-! ## While one pair stays selected -/
 
